@@ -1005,7 +1005,7 @@ def run(ctx):
 
     # ---- run the model in Coq -------------------------------------------------------------------
     files = []
-    per = 10 if ctx.quick else 50
+    per = 10 if ctx.quick else 25
     for si in range(0, len(cases), per):
         chunk = texts[si:si + per]
         txt = (header + "Definition results : list bool := [\n  " + ";\n  ".join(chunk)
@@ -1058,6 +1058,13 @@ def run(ctx):
         hist_file = ctx.write_gen("composition_histories.v", header + "Definition results : list bool := [\n  "
                                   + ";\n  ".join(hist_lines) + "].\nEval vm_compute in (failing results).\n")
     res = coqc_many([f for f, _ in files] + ([hist_file] if hist_file else []) + [pol_file] + [f for f, _ in mach_files], timeout=900)
+    # a coqc process that was killed from outside (out-of-memory killer on a loaded machine: no output at all) or timed
+    # out is run again, alone; a file that compiles and reports DIFF is never re-run
+    retried = [f for f, (ok, outp) in res.items() if not ok and (not outp.strip() or outp.startswith("TIMEOUT"))]
+    for f in retried:
+        res[f] = coqc(f, timeout=1800)
+    if retried:
+        ctx.log("re-ran %d generated files whose coqc process was killed / timed out" % len(retried))
     mach_bad = []
     for f, chunk in mach_files:
         ok, outp = res[f]
